@@ -255,7 +255,7 @@ _OPERATOR_FNS = {"operator." + k: (v, 2) for k, v in {
     "xor": ast.BitXor, "or_": ast.BitOr, "and_": ast.BitAnd, "add": ast.Add, "sub": ast.Sub, "mul": ast.Mult, "lshift": ast.LShift,
     "rshift": ast.RShift, "floordiv": ast.FloorDiv, "mod": ast.Mod, "pow": ast.Pow, "concat": ast.Add}.items()}
 _OPERATOR_FNS.update({k.replace("operator.", "operator.__") + "__": v for k, v in list(_OPERATOR_FNS.items())})
-_MUTATORS = ("pop", "popleft", "popitem", "setdefault", "add", "discard", "extendleft", "remove", "clear", "insert")
+_MUTATORS = ("pop", "popleft", "popitem", "setdefault", "add", "discard", "extendleft", "remove", "clear", "insert", "sort", "reverse")
 
 
 def _is_generator(fnode):
